@@ -371,13 +371,19 @@ func c06RandTable(r *vfRand) (t c06Table) {
 	return t
 }
 
-// c06HasCycle: is there a cycle among the exact-name CNAME entries?
+// c06HasCycle: is there a CNAME cycle of length >= 2 (following entries by
+// pattern coverage, wildcards included)?
 func c06HasCycle(tbl []c06Entry) bool {
-	next := map[string][]string{}
-	for _, e := range tbl {
-		if _, err := netip.ParseAddr(e.ans); err != nil && e.ans != "A" && e.ans != "AAAA" && e.ans != strings.ToLower(e.dom) {
-			next[strings.ToLower(e.dom)] = append(next[strings.ToLower(e.dom)], e.ans)
+	next := func(n string) (out []string) {
+		for _, e := range tbl {
+			if _, err := netip.ParseAddr(e.ans); err == nil || e.ans == "A" || e.ans == "AAAA" || e.ans == n {
+				continue
+			}
+			if c06Matches(e.dom, n) {
+				out = append(out, e.ans)
+			}
 		}
+		return out
 	}
 	var visit func(n string, path map[string]bool, depth int) bool
 	visit = func(n string, path map[string]bool, depth int) bool {
@@ -389,15 +395,25 @@ func c06HasCycle(tbl []c06Entry) bool {
 		}
 		path[n] = true
 		defer delete(path, n)
-		for _, m := range next[n] {
+		for _, m := range next(n) {
 			if visit(m, path, depth+1) {
 				return true
 			}
 		}
 		return false
 	}
-	for n := range next {
-		if visit(n, map[string]bool{}, 0) {
+	for _, e := range tbl {
+		if visit(e.ans, map[string]bool{}, 0) {
+			return true
+		}
+	}
+	return false
+}
+
+// c06CnameCovers: does a CNAME entry (not pointing at the name itself) cover name?
+func c06CnameCovers(tbl []c06Entry, name string) bool {
+	for _, e := range tbl {
+		if _, err := netip.ParseAddr(e.ans); err != nil && e.ans != "A" && e.ans != "AAAA" && c06Matches(e.dom, name) {
 			return true
 		}
 	}
@@ -419,7 +435,7 @@ func TestVerifC06(t *testing.T) {
 	defer func() { d.Close() }()
 
 	tables := c06Prelude()
-	nRand := out.Scale(450, 12000)
+	nRand := out.Scale(1500, 40000)
 	for i := 0; i < nRand; i++ {
 		tables = append(tables, c06RandTable(rnd.Fork(uint64(i))))
 	}
@@ -509,6 +525,11 @@ func TestVerifC06(t *testing.T) {
 					classes["out-addr"] = true
 				case len(o1.ips) == 0:
 					classes["out-cname-only"] = true
+					if c06CnameCovers(tb.entries, o1.canon) {
+						// the chase stopped although a CNAME covers the
+						// canonical name: loop cut or the *.x -> sub.x case
+						classes["out-chase-stopped-by-loop"] = true
+					}
 				default:
 					classes["out-cname-addr"] = true
 				}
